@@ -1,6 +1,7 @@
 import Proofs.C16.Musig2Agg
 import Proofs.C16.SilentPayments
 import Proofs.C16.Pedersen
+import Proofs.C16.SilentPaymentsComplete
 /-!
 # C16 — property theorems only (see DESIGN.md §3 C16).
 
@@ -218,6 +219,23 @@ theorem sp_scan_reports_spendable_partial (L : Lawful o G) (H : Bytes → Bytes 
     ∀ e ∈ res, e.1 ∈ outputs ∧ ∃ P : α, L.abs P = (bSpend + e.2) • L.abs o.gen ∧ L.abs P ≠ 0
       ∧ sBytes (o.x P) = e.1 :=
   scanOutputs_sound L H hp labels hlab bScan bSpend Bspend T hB outputs res h
+
+/-- **T9 (completeness of the `k` walk, unlabelled wallet).** If the transaction's outputs contain
+(as a sub-multiset: decoys, other recipients' outputs, any order) the chain
+`x(B_spend + t_k•G), x(B_spend + t_{k+1}•G), …` the sender created for this recipient — repeated
+payments to the same address advance `k` — then a scan without labels reports exactly these keys,
+in order, each with its tweak `t_k`, before anything else. With T9 (agreement) the `t_k` are the
+sender's, and with `sp_scan_reports_spendable_partial` each is opened by `b_spend + t_k`.
+(For a wallet WITH labels this walk-completeness is not proved: see the partial theorem above.) -/
+theorem sp_scan_complete_unlabelled (H : Bytes → Bytes → Bytes) (secret Bspend : α)
+    (exp : List (Bytes × Int)) (k fuel : Nat) (hch : SpChain o H secret Bspend k exp)
+    (hfuel : exp.length ≤ fuel) (rem : List Bytes) (hsub : (exp.map Prod.fst).Subperm rem)
+    (res : List (Bytes × Int)) (h : scanLoop o H secret Bspend [] fuel k rem = .ok res) :
+    exp <+: res :=
+  scanLoop_complete_unlabelled H secret Bspend exp k fuel hch hfuel rem hsub res h
+
+/-- the chain hypothesis is satisfiable: the empty chain at any `k` -/
+example (H : Bytes → Bytes → Bytes) (secret Bspend : α) : SpChain o H secret Bspend 0 [] := .nil 0
 
 /-- the generated BIP374 / BIP352 sizes are the ones the proofs used -/
 example : Gen.Interactive.DLEQ_SCALAR_SIZE = 32 ∧ Gen.Interactive.DLEQ_PROOF_SIZE = 64
